@@ -541,8 +541,25 @@ def run(ctx):
     ctx.rule("R6.2", "allocators: wide population + fresh-value idiom")
     from sa.inline import walk_expanded
 
+    listed = {q_ for _m, q_, _mu, _fo in ALLOCATORS}
     for mod, q, must, forbid in ALLOCATORS:
-        f = prog.func(mod, q)
+        try:
+            f = prog.func(mod, q)
+        except AnalysisError:
+            # renamed: the allocator is the one other method of the class that draws on the same population
+            f = None
+            if "." in q:
+                k_ = prog.modules[mod].classes.get(q.split(".")[0]) if mod in prog.modules else None
+                cands = [g_ for nm_, g_ in (k_.methods.items() if k_ is not None else []) if g_.qualname not in listed
+                         and all((m_ in ast.unparse(g_.node)) if isinstance(m_, str) else True for m_ in must)
+                         and any(isinstance(x, ast.Return) and x.value is not None for x in ast.walk(g_.node))
+                         and [m_ for m_ in must if isinstance(m_, str)]]
+                if len(cands) == 1:
+                    f = cands[0]
+            if f is None:
+                raise
+        if q.endswith("._next_shape_id"):
+            SHAPE_ID_ALLOCATORS.add(f.name)
         # the allocator together with the helpers / properties of the repository it computes through (extract-method refactors
         # move the scan or the population query into a helper; the rule is about the computation, not about one function body)
         reach = []
@@ -873,10 +890,13 @@ def _id_factories(prog, T):
     return facs
 
 
+SHAPE_ID_ALLOCATORS = {"_next_shape_id"}   # names the shape-id allocators go by on this tree (filled in by run())
+
+
 def _id_source(prog, T, g, arg, depth):
     if depth > 4:
         return None
-    if isinstance(arg, ast.Attribute) and arg.attr in ("_next_shape_id",):
+    if isinstance(arg, ast.Attribute) and arg.attr in SHAPE_ID_ALLOCATORS:
         return "allocator %s" % ast.unparse(arg)
     if isinstance(arg, ast.Attribute) and arg.attr in ("shape_id", "id") and "self" in ast.unparse(arg):
         return "id of the element being replaced (%s)" % ast.unparse(arg)
